@@ -643,11 +643,35 @@ class PassShape:
             else:
                 res['unknown'].append(e0)
 
-        def loop_ctxvars(cn):
+        def loop_ctxvars(cn, stmt=None):
             ctxvars = {}
-            for fo in (self.cfg.enclosing_fors(cn) if cn is not None else []):
+            fors = self.cfg.enclosing_fors(cn) if cn is not None else []
+            for fo in fors:
                 if isinstance(fo.target, ast.Name):
-                    ctxvars[fo.target.id] = self._owner_tag(self.owners_of(fo.iter, self.cfg.node_of(fo)), fo.iter)
+                    owners = self.owners_of(fo.iter, self.cfg.node_of(fo))
+                    # a `break` in the loop over the owners cuts the chain of ancestors short
+                    brk = [b for st_ in fo.body for b in ast.walk(st_) if isinstance(b, ast.Break)
+                           and not any(isinstance(l_, (ast.For, ast.While)) and l_ is not fo and any(y is b for y in ast.walk(l_))
+                                       for st2 in fo.body for l_ in ast.walk(st2))]
+                    if owners is not None and brk and 'all' in owners:
+                        owners = (set(owners) - {'all'}) | {'partial'}
+                    ctxvars[fo.target.id] = self._owner_tag(owners, fo.iter)
+            # conditions on the growth statement inside the loop: only `the added collection is not empty` is harmless
+            if fors and cn is not None and stmt is not None:
+                outer = self.cfg.node_of(fors[0])
+                outer_c = self.cfg.conditions(outer) if outer is not None else []
+                for t, p in [c_ for c_ in self.cfg.conditions(cn) if not any(c_[0] is oc[0] for oc in outer_c)]:
+                    em = is_emptiness(t, p)
+                    if em is None:
+                        core, pol_ = t, p
+                        while isinstance(core, ast.UnaryOp) and isinstance(core.op, ast.Not):
+                            core, pol_ = core.operand, not pol_
+                        em = (core, not pol_)      # bare truthiness of a sequence expression
+                    harmless = em is not None and not em[1] and isinstance(em[0], ast.Attribute) and em[0].attr == rel and \
+                        isinstance(em[0].value, ast.Name) and em[0].value.id in ctxvars
+                    if not harmless and not (isinstance(t, (ast.For, ast.AsyncFor))):
+                        res['filtered'].append(stmt)
+                        break
             return ctxvars
 
         if not isinstance(iter_expr, ast.Name):
@@ -675,7 +699,7 @@ class PassShape:
                     res['unknown'].append(d.stmt)
                     continue
                 # enclosing loop over the link owners (the ancestors of the task, possibly with the task itself)
-                classify_seq(d.stmt.value, loop_ctxvars(d.node), d.node)
+                classify_seq(d.stmt.value, loop_ctxvars(d.node, d.stmt), d.node)
             elif d.kind == 'param':
                 res['unknown'].append(ast.Name(id=var))
             else:
@@ -691,7 +715,7 @@ class PassShape:
                 if n.func.attr in ('append', 'add', 'insert'):
                     res['unknown'].append(n)      # single element insertion: not a recognised collection idiom
                 else:
-                    classify_seq(a, loop_ctxvars(cn), cn)
+                    classify_seq(a, loop_ctxvars(cn, n), cn)
                 res['defs'].append(n)
         return res
 
